@@ -277,3 +277,33 @@ fn c12_window_skew() {
     let s = ((c + 1) % w) as u32;
     assert!(!old_enough(s, c), "C12.window.skewed_stamp_not_old");
 }
+
+/// C02 composition lemma (the arithmetic core of Snapshot validity): a thread pinned at epoch e sees the
+/// clock at e or e+1 (C14).  Any stamp it leaves - or that is left on its behalf - while pinned is the
+/// stamp of e or e+1 (decrement's stamp, a link's timestamp, WeakSnapshot::upgrade's stamp).  A cascade
+/// decision taken while it is still pinned reads the clock at c in {e, e+1} and classifies the NEWEST of
+/// (parent, link, child) stamps.  Then, whatever the other two stamps are, the decision is "recent":
+/// the object is deferred behind the critical section instead of being reclaimed at once.
+#[kani::proof]
+#[kani::unwind(5)]
+fn c02_stamp_inside_critical_section_blocks_immediate_reclamation() {
+    let e: usize = kani::any();
+    kani::assume(e < (1usize << 62) - 2);
+    let sigma = e + kani::any::<bool>() as usize;          // epoch the protecting stamp was taken in
+    let c = e + kani::any::<bool>() as usize;              // epoch the cascade decision reads
+    let w = 1usize << EPOCH_WIDTH;
+    let s = (sigma % w) as isize;
+    // the other two stamps: field values of epochs <= c + 1
+    let (x, y): (isize, isize) = (kani::any(), kani::any());
+    kani::assume(0 <= x && x < w as isize && 0 <= y && y < w as isize);
+    kani::assume(x <= c as isize + 1 && y <= c as isize + 1);
+    let pos: u8 = kani::any();
+    let modu: Modular<EPOCH_WIDTH> = Modular::new(c as isize + 1);
+    let merged = match pos % 3 { 0 => modu.max(&[s, x, y]), 1 => modu.max(&[x, s, y]), _ => modu.max(&[x, y, s]) };
+    let stored = State::from_raw(0).with_epoch(merged as usize).epoch();
+    assert!(!old_enough(stored, c), "C02.lemma.stamp_taken_inside_cs_makes_every_decision_inside_cs_recent");
+    // and directly: the stamp itself is never old for a decision inside the critical section
+    assert!(!old_enough((sigma % w) as u32, c), "C02.lemma.own_stamp_is_recent");
+    kani::cover!(sigma == e + 1 && c == e, "cover.c02.stamp_ahead_of_decision");
+    kani::cover!(sigma == e && c == e + 1 && stored as usize != sigma % w, "cover.c02.another_stamp_is_newer");
+}
